@@ -248,7 +248,7 @@ def documented(kind, m, fmin, fmax, depth, old):
         new = tt + (q / k) * (depth - zt) - A / (2 * k) * (depth - zt) ** 2
     elif kind == 'plate model constant age':
         # Fowler (1990) ch. 7 plate model with a fixed age: linear profile plus 100 terms of the cooling series
-        tt, L = m['top temperature'], m['max depth']
+        tt, L = m['top temperature'], m.get('L', m['max depth'])   # L: the model's global max depth (deepest point of its max-depth surface)
         tb = m['bottom temperature'] if m['bottom temperature'] >= 0 else adiab(depth)
         age = m['plate age'] * 31557600.0
         new = tt + (tb - tt) * (depth / L)
@@ -271,7 +271,7 @@ def world_text(fdir, fmin, fmax, models):
                       "coordinates": [[0, 0], [1e6, 0], [1e6, 1e6], [0, 1e6]], "temperature models": models}]})
 
 
-def one_case(fdir, kind, m, fmin, fmax, depths, work, json_min_depth=None):
+def one_case(fdir, kind, m, fmin, fmax, depths, work, json_min_depth=None, json_max_depth=None):
     """json_min_depth: how "min depth" is written in the file when it is a surface (values at points); m['min depth'] is then
     its value in the queried column (500 km, 500 km), which is a listed point"""
     import oracle
@@ -280,6 +280,9 @@ def one_case(fdir, kind, m, fmin, fmax, depths, work, json_min_depth=None):
     mm['model'] = kind
     if json_min_depth is not None:
         mm['min depth'] = json_min_depth
+    if json_max_depth is not None:
+        mm['max depth'] = json_max_depth
+    mm.pop('L', None)
     q = oracle.Q(world_text(fdir, fmin, fmax, [base, mm]), work)
     try:
         if q.construct_error:
@@ -476,6 +479,13 @@ def native_oracle(witness, work, search_seed=None):
                     n += 1
                     if r is not None:
                         return r
+        # laterally varying model bottom: the range test uses the bottom in the queried column, the series the model's global max depth
+        m = {'min depth': 0.0, 'max depth': 60e3, 'L': 95e3, 'top temperature': 273.15, 'bottom temperature': 1600.0, 'plate age': 40e6, 'operation': 'replace'}
+        r = one_case('oceanic_plate', 'plate model constant age', m, 0.0, 95e3, [1e3, 10e3, 30e3, 59e3, 60e3, 70e3], work,
+                     json_max_depth=[[95e3], [60e3, [[500e3, 500e3]]]])
+        n += 1
+        if r is not None:
+            return r
         return dict(status='holds', detail='%d oceanic plates with a constant-age plate model agree with the 100-term series' % n)
     if witness.get('unit'):
         return dict(status='no-native-oracle', detail='no replay oracle for unit %s' % witness['unit'])
@@ -525,7 +535,7 @@ def native_oracle(witness, work, search_seed=None):
 
 
 def witness_from_trace(unit, failure, seed):
-    if '_T_' not in unit['name']:
+    if '_T_' not in unit['name'] or unit['name'].endswith(('_T_plate_constant_age', '_T_plate_model')):
         return dict(unit=unit['name'])
     fdir, kind = unit['name'].split('_T_')
     return dict(family=fdir, kind=kind)
